@@ -29,6 +29,9 @@ func init() {
 			{"C16.compress-api", "the zstd codec is constructed without limiting options: every valid chunk a store holds can be decoded by verify (shared with C20)", 2, c20CompressAPI},
 			{"C16.remove-completes", "RemoveChunk of every back end reports success only after its delete primitive succeeded", 4, func(c *Ctx) { c.writePrimitives("C16") }},
 			{"C16.options-from-config", "every store built in cmd/desync gets its options from the config entry of its location (format, verification)", 12, func(c *Ctx) { c.storeOptionsFromConfig() }},
+			{"C16.worker-error-private", "the verify workers do not share an error variable with each other or with the walk (shared with C07)", 1, func(c *Ctx) {
+				c.sideGoroutineErrors(func(key string) bool { return strings.HasPrefix(key, "LocalStore.") })
+			}},
 			{"C16.verify", "verify removes exactly the invalid chunks, only with repair", 3, c16Verify},
 		},
 	})
